@@ -80,7 +80,12 @@ static void vc_idle()
 	}
 	if (p > 4) usleep(40);   // nothing to do: leave the core to the parties that compute
 }
-static time_t vc_time() { return VC_BASE + (time_t)g_sh->ticks.load(); }
+// DeliverFrom(j) spins on time() alone, without looking at the channels, when values of j delivered under
+// another identifier are still buffered: a long run of time() calls with no channel access in between is
+// idle polling as well (a party that computes does not call time() at all)
+static uint64_t g_time_run = 0;
+static void vc_touch() { g_time_run = 0; }
+static time_t vc_time() { if (++g_time_run > 4000) vc_idle(); return VC_BASE + (time_t)g_sh->ticks.load(); }
 
 } // namespace
 
@@ -180,6 +185,7 @@ class tap_unicast : public aiounicast
 			aiounicast(n_in, j_in, aio_scheduler_roundrobin, VC_TIMEOUT, false, false, false), inner(in), cx(cx_in) {}
 		virtual bool Send(mpz_srcptr m, const size_t i_in, const time_t timeout = aio_timeout_default)
 		{
+			vc_touch();
 			cx->tap.drain(EV_PRIV_SEND);
 			cx->out_op();
 			Z v; mpz_set(v, m);
@@ -193,6 +199,7 @@ class tap_unicast : public aiounicast
 		}
 		virtual bool Send(const std::vector<mpz_srcptr> &m, const size_t i_in, const time_t timeout = aio_timeout_default)
 		{
+			vc_touch();
 			bool rsend = (m.size() == 5) && (mpz_cmp_ui(m[3], 1UL) == 0);
 			if (!rsend || cx->in_insert || !cx->dev_active) {
 				if (!cx->in_insert) cx->tap.drain(rsend ? (i_in == 0 ? EV_BC_FIRST : (i_in + 1 == n ? EV_BC_LAST : EV_BC_MID)) : EV_OTHER);
@@ -233,7 +240,7 @@ class tap_unicast : public aiounicast
 			time_t entry = time(NULL); bool ok = false;
 			// while waiting for a private message keep the reliable broadcast going (as DeliverFrom would),
 			// so that no backlog of broadcast traffic builds up behind a slow sender
-			do { ok = inner->Receive(m, i_out, scheduler, 0); if (!ok) { vc_idle(); if (cx->rbc) pump_rbc(cx->rbc); } } while (!ok && time(NULL) < entry + tmo);
+			do { vc_touch(); ok = inner->Receive(m, i_out, scheduler, 0); if (!ok) { vc_idle(); if (cx->rbc) pump_rbc(cx->rbc); } } while (!ok && time(NULL) < entry + tmo);
 			if (ok) {
 				vc_activity();
 				if (cx->dev_active && i_out < n) {
@@ -249,7 +256,7 @@ class tap_unicast : public aiounicast
 			if (!cx->in_insert) cx->tap.drain(EV_OTHER);
 			time_t tmo = (timeout == aio_timeout_default) ? aio_default_timeout : timeout;
 			time_t entry = time(NULL); bool ok = false;
-			do { ok = inner->Receive(m, i_out, scheduler, 0); if (!ok) vc_idle(); } while (!ok && time(NULL) < entry + tmo);
+			do { vc_touch(); ok = inner->Receive(m, i_out, scheduler, 0); if (!ok) vc_idle(); } while (!ok && time(NULL) < entry + tmo);
 			if (ok) vc_activity();
 			return ok;
 		}
